@@ -83,9 +83,10 @@ pub broadcast proof fn ff_lemma_shl1_i128(x: i128)
 
 pub broadcast proof fn ff_lemma_and1_i128(x: i128)
     requires 0 <= x
-    ensures (#[trigger] (x & 1i128) == 1i128) == (x % 2 == 1)
+    ensures #[trigger] (x & 1i128) == x % 2
 {
-    assert(0 <= x ==> (((x & 1i128) == 1i128) == (x % 2 == 1))) by (bit_vector);
+    // stated as the VALUE of `x & 1` so that every spelling of the parity test (== 1, != 0, == 0) is covered
+    assert(0 <= x ==> (x & 1i128) == x % 2i128) by (bit_vector);
 }
 
 // ------------------------------------------------------------------ half-even rounding
